@@ -384,7 +384,7 @@ class NameConverter(ast.NodeTransformer):
         code_mangled,
     ):
         self.analysis = anal
-        self.recurse_sym = recurse_sym
+        self.recurse_syms = recurse_sym or ()
         self.call_next_sym = call_next_sym
         self.ovld_mangled = ovld_mangled
         self.map_mangled = map_mangled
@@ -392,7 +392,7 @@ class NameConverter(ast.NodeTransformer):
         self.count = count()
 
     def visit_Name(self, node):
-        if node.id == self.recurse_sym:
+        if node.id in self.recurse_syms:
             return ast.copy_location(
                 old_node=node,
                 new_node=ast.Name(self.ovld_mangled, ctx=node.ctx),
@@ -404,7 +404,7 @@ class NameConverter(ast.NodeTransformer):
 
     def visit_Call(self, node):
         if not isinstance(node.func, ast.Name) or node.func.id not in (
-            self.recurse_sym,
+            *self.recurse_syms,
             self.call_next_sym,
         ):
             return self.generic_visit(node)
@@ -511,7 +511,7 @@ def adapt_function(fn, ovld, newname):
     )
     if rec_syms or cn_syms:
         return recode(
-            fn, ovld, rec_syms and rec_syms[0], cn_syms and cn_syms[0], newname
+            fn, ovld, tuple(rec_syms), cn_syms and cn_syms[0], newname
         )
     else:
         return rename_function(fn, newname)
